@@ -175,14 +175,77 @@ def check_copy_family(rep, scr, tier, seed):
         cases = gen_copy(pid, seed, consts[v], tier)
         oi, om = run_cases(rep, scr, impls[v], md, consts[v], cases, v)
         judge(rep, cases, oi, om, consts[v], v, oracle_for(pid, consts[v]), projection_for(pid, consts[v]), None)
+    if pid == 'C02': c02_query_extents(rep, scr, impls['O1'], md, consts['O1'], tier, seed)
     report_proofs(rep, pr, pid)
     report_mismatches(rep, 'T1')
     rep.trusted = TRUSTED_COMMON
-    rep.extra['functions_in_scope'] = STRF + MEMF
+    rep.extra['functions_in_scope'] = STRF + MEMF + (C02_QUERY if pid == 'C02' else [])
     rep.extra['build_variants'] = variants
     return rep.finish('size lattice x contents x placements x object-size classes x build variants (see input_distribution); '
                       'non-trivial = distinct (function, case class, return value, handler list, build variant)',
                       'make -C /verif/coq Properties_%s.vo (coqc, full .vo) + harness/check.py %s' % (pid, pid))
+
+C02_QUERY = ['wcsnlen_s', 'strcmp_s', 'strcasecmp_s', 'strfirstdiff_s', 'strfirstsame_s', 'strlastdiff_s', 'strlastsame_s', 'strprefix_s', 'strspn_s', 'strcspn_s', 'strpbrk_s', 'strstr_s',
+             'strcasestr_s', 'strchr_s', 'strrchr_s', 'strfirstchar_s', 'strlastchar_s', 'memchr_s', 'memrchr_s', 'memcmp_s', 'strisalphanumeric_s', 'strisascii_s', 'strisdigit_s', 'strishex_s',
+             'strislowercase_s', 'strismixedcase_s', 'strisuppercase_s', 'wcscmp_s', 'wcsncmp_s', 'wcsstr_s']
+def c02_query_extents(rep, scr, impl, md, consts, tier, seed):
+    """read-only functions on unterminated arrays that exactly fill their declared size, flush against an unreadable page"""
+    cs = []; k = [0]
+    def add(func, blocks, args, **meta):
+        k[0] += 1; meta.update(func=func, cls='query-extent'); cs.append(vlib.Case('e%d' % k[0], func, blocks, args, meta))
+    res = ('R', b'\xee' * 8)
+    for n in (1, 2, 3, 8) + ((5, 16, 33) if tier == 'thorough' else ()):
+        for fillc, name in ((0x61, 'letters'), (0x31, 'digits'), (0x20, 'blanks'), (0x41, 'upper')):
+            D = bytes([fillc] * n)                           # no terminator inside the object
+            WD = fam_copy.enc([fillc] * n, 4)
+            srcs = {'same+nul': bytes([fillc] * n) + b'\0', 'longer': bytes([fillc] * (n + 2)) + b'\0', 'shorter': bytes([fillc] * (n - 1)) + b'\0', 'other': b'b\0', 'set': bytes([fillc]) + b'\0'}
+            add('wcsnlen_s', [res, ('R', WD)], [(1, 0), n, UNK], n=n, fill=name, which='dest')
+            for sn, S in srcs.items():
+                for f in ('strcmp_s', 'strcasecmp_s'):
+                    add(f, [res, ('R', D), ('R', S)], [(1, 0), n, (2, 0), (0, 0), UNK] + ([UNK] if f == 'strcmp_s' else []), n=n, fill=name, src=sn, which='dest')
+                for f in ('strfirstdiff_s', 'strfirstsame_s', 'strlastdiff_s', 'strlastsame_s'):
+                    add(f, [res, ('R', D), ('R', S)], [(1, 0), n, (2, 0), (0, 0), UNK], n=n, fill=name, src=sn, which='dest')
+                add('strprefix_s', [res, ('R', D), ('R', S)], [(1, 0), n, (2, 0), UNK], n=n, fill=name, src=sn, which='dest')
+                for f in ('strspn_s', 'strcspn_s', 'strpbrk_s', 'strstr_s', 'strcasestr_s'):
+                    sl = max(len(S) - 1, 1)
+                    add(f, [res, ('R', D), ('R', S)], [(1, 0), n, (2, 0), sl, (0, 0), UNK, UNK], n=n, fill=name, src=sn, which='dest')
+                WS = fam_copy.enc(list(S[:-1]) + [0], 4)
+                add('wcscmp_s', [res, ('R', WD), ('R', WS)], [(1, 0), n, (2, 0), len(S), (0, 0), UNK, UNK], n=n, fill=name, src=sn, which='dest')
+                add('wcsncmp_s', [res, ('R', WD), ('R', WS)], [(1, 0), n, (2, 0), len(S), n, (0, 0), UNK, UNK], n=n, fill=name, src=sn, which='dest')
+                add('wcsstr_s', [res, ('R', WD), ('R', WS)], [(1, 0), n, (2, 0), max(len(S) - 1, 1), (0, 0), UNK, UNK], n=n, fill=name, src=sn, which='dest')
+            # the source side: an unterminated set / pattern of exactly slen elements
+            T = D + b'\0'
+            for f in ('strspn_s', 'strcspn_s', 'strpbrk_s', 'strstr_s', 'strcasestr_s'):
+                for SU in (D, bytes([0x7a] * n)):
+                    add(f, [res, ('R', T), ('R', SU)], [(1, 0), n + 1, (2, 0), n, (0, 0), UNK, UNK], n=n, fill=name, src='unterminated', which='src')
+            add('memcmp_s', [res, ('R', D), ('R', D[:-1] + b'z')], [(1, 0), n, (2, 0), n, (0, 0), UNK, UNK], n=n, fill=name, src='flush', which='both')
+            add('memcmp_s', [res, ('R', D), ('R', D)], [(1, 0), n, (2, 0), n, (0, 0), UNK, UNK], n=n, fill=name, src='flush-equal', which='both')
+            for ch in (fillc, 0x7a, 0):
+                for f in ('strchr_s', 'strrchr_s', 'memchr_s', 'memrchr_s') + (('strfirstchar_s', 'strlastchar_s') if ch else ()):
+                    add(f, [res, ('R', D)], [(1, 0), n, ch, (0, 0), UNK], n=n, fill=name, ch=ch, which='dest')
+            for f in ('strisalphanumeric_s', 'strisascii_s', 'strisdigit_s', 'strishex_s', 'strislowercase_s', 'strismixedcase_s', 'strisuppercase_s'):
+                add(f, [res, ('R', D)], [(1, 0), n, UNK], n=n, fill=name, which='dest')
+    cf = '%s/cases_c02q.txt' % scr.dir
+    with open(cf, 'w') as f:
+        for c in cs: f.write(c.line() + '\n')
+    oi = vlib.run_impl(impl, cf, cs)
+    mc = [c for c in cs if c.func in C10_MODELLED]
+    cfm = '%s/cases_c02qm.txt' % scr.dir
+    with open(cfm, 'w') as f:
+        for c in mc: f.write(c.line() + '\n')
+    om = vlib.run_model(md, vlib.model_args(consts), cfm)
+    for c in cs:
+        a = oi.get(c.id); m = c.meta
+        rep.evals += 1; rep.count('%s/query-extent/%s' % (c.func, m['which']))
+        if a is None: continue
+        rep.nontrivial.add((c.func, 'query-extent', a.ret, a.fault != '-'))
+        if a.fault != '-':
+            kid = known.classify(rep, c, a, 'fault', 'O1', consts)
+            if kid: rep.known_hits[kid] = rep.known_hits.get(kid, 0) + 1
+            else: rep.violation('%s on an unterminated %s-element array flush against an unreadable page (%s): faulted at %s' % (c.func, m['n'], {k2: v for k2, v in m.items() if k2 in ('fill', 'src', 'ch', 'which')}, a.fault),
+                                {'key': (c.func, 'query-extent', m['which']), 'property': 'C02', 'function': c.func, 'failure': 'fault', 'case': c.to_json(), 'case_line': c.line(), 'impl_outcome': a.raw})
+        b = om.get(c.id) if c.func in C10_MODELLED else None
+        if b is not None and a.fault == '-' and (a.ret, a.blocks, a.handlers) != (b.ret, b.blocks, b.handlers): rep.mismatches.append((c, a, b, 'O1'))
 
 REGISTRY = {p: check_copy_family for p in ('C01', 'C02', 'C03', 'C04', 'C05', 'C06', 'C07', 'C08')}
 
@@ -1515,3 +1578,230 @@ def check_C11(rep, scr, tier, seed):
     return rep.finish('formats from the directive grammar (flags x width x precision x length x conversion, 0..4 directives with literal text, * width/precision incl. negative), argument values incl. 0, -1, type minima/maxima, +-0.0, denormals, the 1e9 boundary, 1e300, inf, nan, rounding roll-over values, empty/long/multibyte strings, wide characters and strings; dmax from 1 to beyond the needed size; the four buffer entry points and the four stream entry points; every call also replayed in the opposite order',
                       'make -C /verif/coq Properties_C11.vo + harness/check.py C11')
 REGISTRY['C11'] = check_C11
+
+# ------------------------------------------------------------------------------------------------ C10
+def _sgn(x): return (x > 0) - (x < 0)
+def _cmp(a, b): return _sgn((a > b) - (a < b))
+C10_MODELLED = ['strcmp_s', 'strcasecmp_s', 'memcmp_s', 'strchr_s', 'strrchr_s', 'memchr_s', 'memrchr_s', 'strspn_s', 'strcspn_s', 'strpbrk_s',
+                'strprefix_s', 'strfirstdiff_s', 'strfirstsame_s', 'wcsnlen_s']
+def c10_cases(seed, tier):
+    """(func, blocks, args, meta) ; block 0 = result cell (8 bytes), block 1 = dest, block 2 = src"""
+    import random, itertools
+    rng = random.Random(seed); cs = []; n = [0]
+    alpha = [0x61, 0x62, 0x41, 0x42, 0x30, 0x20, 0x80, 0xe9, 0xff, 0x7a]
+    maxlen = 4 if tier == 'quick' else 5
+    small = [0x61, 0x62, 0x41, 0xe9]
+    strs = [list(t) for k in range(0, maxlen + 1) for t in itertools.product(small, repeat=k)]
+    if tier == 'quick': strs = [s for s in strs if len(s) <= 2] + rng.sample([s for s in strs if len(s) > 2], 40)
+    extra = [[rng.choice(alpha) for _ in range(rng.randrange(1, 13))] for _ in range(60 if tier == 'quick' else 400)]
+    strs += extra
+    res8 = b'\xee' * 8
+    def add(func, dest, src, args, **meta):
+        n[0] += 1
+        blocks = [('R', res8), ('R', bytes(dest))] + ([('R', bytes(src))] if src is not None else [])
+        meta.update(func=func, cls=meta.get('cls', 'query'))
+        cs.append(vlib.Case('q%d' % n[0], func, blocks, args, meta))
+    def dmaxes(l): return sorted(set(d for d in (1, l - 1, l, l + 1, l + 3) if d >= 1))
+    pairs = []
+    for d in strs:
+        # partners: equal, differing at one place, prefix, longer, case variant
+        cand = [list(d), list(d) + [0x61], list(d[:-1]) if d else [0x61], [c ^ 0x20 if 0x41 <= c <= 0x7a else c for c in d]]
+        if d:
+            j = rng.randrange(len(d)); e = list(d); e[j] = rng.choice(alpha); cand.append(e)
+            e = list(d); e[-1] = rng.choice(alpha); cand.append(e)
+        cand.append(rng.choice(strs))
+        for s in cand[: (4 if tier == 'quick' else 7)]: pairs.append((d, s))
+    for d, s in pairs:
+        D = d + [0] + [0x61, 0x7a, 0]      # bytes after the terminator are part of the object, not of the string
+        S = s + [0]
+        for dmax in dmaxes(len(d)):
+            for f in ('strcmp_s', 'strcasecmp_s'):
+                add(f, D, S, [(1, 0), dmax, (2, 0), (0, 0), UNK] + ([UNK] if f == 'strcmp_s' else []), d=d, s=s, dmax=dmax)
+            for f in ('strfirstdiff_s', 'strfirstsame_s', 'strlastdiff_s', 'strlastsame_s'):
+                add(f, D, S, [(1, 0), dmax, (2, 0), (0, 0), UNK], d=d, s=s, dmax=dmax)
+            add('strprefix_s', D, S, [(1, 0), dmax, (2, 0), UNK], d=d, s=s, dmax=dmax)
+            for slen in sorted(set([max(len(s), 1), len(s) + 2] + ([len(s) - 1] if len(s) > 1 else []))):
+                for f in ('strspn_s', 'strcspn_s', 'strpbrk_s', 'strstr_s', 'strcasestr_s'):
+                    add(f, D, S, [(1, 0), dmax, (2, 0), slen, (0, 0), UNK, UNK], d=d, s=s, dmax=dmax, slen=slen)
+    for d in strs:
+        D = d + [0] + [0x61, 0x7a, 0]
+        for dmax in dmaxes(len(d)):
+            for ch in sorted(set([0, 0x61, 0x41, 0xe9, 0x7a] + d[:2] + d[-1:])):
+                for f in ('strchr_s', 'strrchr_s', 'strfirstchar_s', 'strlastchar_s'):
+                    if f in ('strfirstchar_s', 'strlastchar_s') and ch == 0: continue
+                    add(f, D, None, [(1, 0), dmax, ch, (0, 0), UNK], d=d, ch=ch, dmax=dmax)
+                if dmax <= len(D):
+                    for f in ('memchr_s', 'memrchr_s'):
+                        add(f, D, None, [(1, 0), dmax, ch, (0, 0), UNK], d=d, D=D, ch=ch, dmax=dmax)
+            for f in ('strisalphanumeric_s', 'strisascii_s', 'strisdigit_s', 'strishex_s', 'strislowercase_s', 'strismixedcase_s', 'strisuppercase_s'):
+                add(f, D, None, [(1, 0), dmax, UNK], d=d, dmax=dmax)
+    # classification strings
+    for d in ([0x61, 0x62], [0x41, 0x5a], [0x30, 0x39], [0x61, 0x31], [0x61, 0x41], [0x66, 0x46, 0x39], [0x67], [0x7f], [0x80], [0x20], [0x61, 0x20], [0x2d]):
+        D = d + [0]
+        for dmax in dmaxes(len(d)):
+            for f in ('strisalphanumeric_s', 'strisascii_s', 'strisdigit_s', 'strishex_s', 'strislowercase_s', 'strismixedcase_s', 'strisuppercase_s'):
+                add(f, D, None, [(1, 0), dmax, UNK], d=d, dmax=dmax)
+    # memory comparisons: byte / 16 / 32 bit / wide
+    for _ in range(250 if tier == 'quick' else 1500):
+        ln = rng.randrange(1, 20); a = [rng.choice(alpha) for _ in range(ln)]; b = list(a)
+        for k in range(rng.randrange(0, 3)):
+            b[rng.randrange(ln)] = rng.choice(alpha)
+        if rng.random() < 0.3 and ln >= 9:      # two differences with opposite directions inside one 8-byte word
+            w = rng.randrange(0, ln - 8 + 1) // 8 * 8
+            if w + 8 <= ln: b[w + 1] = (a[w + 1] + 1) % 256; b[w + 6] = (a[w + 6] - 1) % 256
+        for slen in sorted(set([ln, max(ln - 1, 1), 1])):
+            add('memcmp_s', a, b, [(1, 0), ln, (2, 0), slen, (0, 0), UNK, UNK], a=a, b=b, dmax=ln, slen=slen, unit=1)
+        for f, unit in (('memcmp16_s', 2), ('memcmp32_s', 4), ('wmemcmp_s', 4)):
+            k = ln // unit
+            if k >= 1:
+                for slen in sorted(set([k, max(k - 1, 1)])):
+                    add(f, a[:k * unit], b[:k * unit], [(1, 0), k, (2, 0), slen, (0, 0), UNK, UNK], a=a[:k * unit], b=b[:k * unit], dmax=k, slen=slen, unit=unit)
+    # wide strings
+    wal = [0x61, 0x62, 0xe9, 0x20ac, 0x10348, 0x7fffffff, 0x80000000]
+    for _ in range(150 if tier == 'quick' else 800):
+        d = [rng.choice(wal[:5] if rng.random() < 0.8 else wal) for _ in range(rng.randrange(0, 7))]; s = list(d)
+        if s and rng.random() < 0.6: s[rng.randrange(len(s))] = rng.choice(wal)
+        if rng.random() < 0.3: s = s[:-1] if s else [0x61]
+        D = fam_copy.enc(d + [0, 0x61, 0], 4); S = fam_copy.enc(s + [0], 4)
+        for dmax in dmaxes(len(d)):
+            add('wcsnlen_s', D, None, [(1, 0), dmax, UNK], d=d, dmax=dmax)
+            for smax in sorted(set([len(s) + 1, max(len(s), 1)])):
+                add('wcscmp_s', D, S, [(1, 0), dmax, (2, 0), smax, (0, 0), UNK, UNK], d=d, s=s, dmax=dmax, smax=smax)
+                add('wcsncmp_s', D, S, [(1, 0), dmax, (2, 0), smax, rng.randrange(1, 8), (0, 0), UNK, UNK], d=d, s=s, dmax=dmax, smax=smax)
+            add('wcsstr_s', D, S, [(1, 0), dmax, (2, 0), max(len(s), 1), (0, 0), UNK, UNK], d=d, s=s, dmax=dmax, slen=max(len(s), 1))
+    return cs
+
+def c10_reference(c):
+    """expected (return code or None = any, result) per the standard counterpart restricted to the first dmax elements; None = no expectation"""
+    m = c.meta; f = c.func
+    EOK, NOTFND, NODIFF = 0, 409, 408
+    if f in ('memcmp_s', 'memcmp16_s', 'memcmp32_s', 'wmemcmp_s'):
+        u = m['unit']; a = fam_copy.dec(bytes(m['a']), u)[:m['slen']]; b = fam_copy.dec(bytes(m['b']), u)[:m['slen']]
+        if f == 'wmemcmp_s': a = [x - (1 << 32) if x >= 1 << 31 else x for x in a]; b = [x - (1 << 32) if x >= 1 << 31 else x for x in b]
+        return (EOK, ('sign', _cmp(a, b)))
+    d = m['d']; dmax = m['dmax']; dw = d[:dmax]       # the part of the string inside the window
+    if f == 'wcsnlen_s': return (min(len(d), dmax), None)
+    if f in ('strcmp_s', 'strcasecmp_s', 'wcscmp_s', 'wcsncmp_s'):
+        # the standard function within the first n elements of both operands = strncmp / wcsncmp with that n
+        s = m['s']; n = dmax
+        if f in ('wcscmp_s', 'wcsncmp_s'):
+            n = min(n, m['smax'])
+            if f == 'wcsncmp_s': n = min(n, c.args[4])
+            sg = lambda l: [x - (1 << 32) if x >= 1 << 31 else x for x in l]
+            return (EOK, ('sign', _cmp(sg(d[:n]), sg(s[:n]))))
+        if f == 'strcasecmp_s':
+            up = lambda l: [x - 32 if 0x61 <= x <= 0x7a else x for x in l]
+            return (EOK, ('sign', _cmp(up(d[:n]), up(s[:n]))))
+        return (EOK, ('sign', _cmp(d[:n], s[:n])))
+    if f in ('strchr_s', 'strrchr_s', 'strfirstchar_s', 'strlastchar_s'):
+        ch = m['ch'] & 0xff
+        if f == 'strrchr_s' and not d: return None          # documented constraint: dest must not be empty
+        hay = (d + [0])[:dmax] if f in ('strchr_s', 'strrchr_s') else dw
+        idx = [i for i, x in enumerate(hay) if x == ch]
+        if not idx: return (NOTFND, ('ptr', None))
+        return (EOK, ('ptr', idx[0] if f in ('strchr_s', 'strfirstchar_s') else idx[-1]))
+    if f in ('memchr_s', 'memrchr_s'):
+        hay = m['D'][:dmax]; ch = m['ch'] & 0xff
+        idx = [i for i, x in enumerate(hay) if x == ch]
+        if not idx: return (NOTFND, ('ptr', None))
+        return (EOK, ('ptr', idx[0] if f == 'memchr_s' else idx[-1]))
+    if f in ('strspn_s', 'strcspn_s', 'strpbrk_s'):
+        st = set(m['s'][:m['slen']])
+        if f == 'strpbrk_s':
+            idx = [i for i, x in enumerate(dw) if x in st]
+            return (EOK, ('ptr', idx[0])) if idx else (NOTFND, ('ptr', None))
+        k = 0
+        for x in dw:
+            if (x in st) == (f == 'strspn_s'): k += 1
+            else: break
+        return (EOK, ('count', k))
+    if f in ('strstr_s', 'strcasestr_s', 'wcsstr_s'):
+        s = m['s'][:m['slen']]
+        if not s: return None
+        if f == 'strcasestr_s' and m['slen'] > dmax: return None   # documented constraint of strcasestr_s
+        a, b = dw, s
+        if f == 'strcasestr_s':
+            up = lambda l: [x - 32 if 0x61 <= x <= 0x7a else x for x in l]; a, b = up(a), up(b)
+        for i in range(0, len(a) - len(b) + 1):
+            if a[i:i + len(b)] == b: return (EOK, ('ptr', i))
+        return (NOTFND, ('ptr', None))
+    if f == 'strprefix_s':
+        s = m['s']
+        if not s: return None
+        k = min(len(s), dmax)                # what can be decided inside the window
+        return (EOK if d[:k] == s[:k] else NOTFND, None)
+    if f in ('strfirstdiff_s', 'strfirstsame_s', 'strlastdiff_s', 'strlastsame_s'):
+        s = m['s']; k = min(len(dw), len(s))
+        want_same = f.endswith('same_s')
+        idx = [i for i in range(k) if (dw[i] == s[i]) == want_same]
+        if not idx: return (NOTFND if want_same else NODIFF, None)
+        return (EOK, ('count', idx[0] if 'first' in f else idx[-1]))
+    if f.startswith('stris'):
+        if not dw: return None
+        pred = {'strisalphanumeric_s': lambda x: chr(x).isalnum() and x < 128, 'strisascii_s': lambda x: x < 128, 'strisdigit_s': lambda x: 0x30 <= x <= 0x39,
+                'strishex_s': lambda x: chr(x) in '0123456789abcdefABCDEF', 'strislowercase_s': lambda x: 0x61 <= x <= 0x7a, 'strisuppercase_s': lambda x: 0x41 <= x <= 0x5a,
+                'strismixedcase_s': lambda x: 0x41 <= x <= 0x5a or 0x61 <= x <= 0x7a}[f]
+        return (1 if all(pred(x) for x in dw) else 0, None)
+    return None
+
+def check_C10(rep, scr, tier, seed):
+    impls, constsd, md = setup(rep, scr, ['O1'])
+    pr = proofs(rep, scr, 'C10')
+    consts = constsd['O1']
+    cases = c10_cases(seed, tier)
+    cf = '%s/cases_c10.txt' % scr.dir
+    with open(cf, 'w') as f:
+        for c in cases: f.write(c.line() + '\n')
+    oi = vlib.run_impl(impls['O1'], cf, cases)
+    mcases = [c for c in cases if c.func in C10_MODELLED]
+    cfm = '%s/cases_c10m.txt' % scr.dir
+    with open(cfm, 'w') as f:
+        for c in mcases: f.write(c.line() + '\n')
+    om = vlib.run_model(md, vlib.model_args(consts), cfm)
+    for c in cases:
+        a = oi.get(c.id); m = c.meta; f = c.func
+        rep.evals += 1; rep.count('%s/%s' % (f, 'dmax<len' if m.get('d') is not None and m['dmax'] < len(m['d']) else ('dmax=len' if m.get('d') is not None and m['dmax'] == len(m['d']) else 'dmax>len')))
+        if a is None: continue
+        fails = []
+        if a.fault != '-': fails.append(('fault', 'faulted at %s' % a.fault))
+        else:
+            for bi in range(1, len(c.blocks)):
+                if a.blocks[bi] != c.blocks[bi][1]: fails.append(('operand-modified', 'operand block %d was modified' % bi))
+            exp = c10_reference(c)
+            if exp is not None:
+                rc = int(a.ret); erc, eres = exp
+                rep.nontrivial.add((f, rc, str(eres)[:12]))
+                if f == 'wcsnlen_s' or f.startswith('stris'):
+                    if rc != erc: fails.append(('wrong-answer', 'returned %d, the reference gives %d' % (rc, erc)))
+                else:
+                    if rc != erc and not (rc in (408, 409) and erc in (408, 409)): fails.append(('wrong-code', 'returned %d, the reference gives %d' % (rc, erc)))
+                    elif eres is not None and rc == 0:
+                        kind, val = eres; cell = a.blocks[0]
+                        if kind == 'sign':
+                            got = int.from_bytes(cell[:4], 'little', signed=True)
+                            if _sgn(got) != val: fails.append(('wrong-sign', 'result %d, the standard function gives sign %d' % (got, val)))
+                        elif kind == 'count':
+                            got = int.from_bytes(cell[:8], 'little')
+                            if got != val: fails.append(('wrong-count', 'result %d, the reference gives %d' % (got, val)))
+                        elif kind == 'ptr':
+                            got = int.from_bytes(cell[:8], 'little'); base = block_addr(1, 'R', len(c.blocks[1][1]))
+                            unit = 4 if f == 'wcsstr_s' else 1
+                            if val is None: pass
+                            elif got != base + val * unit: fails.append(('wrong-position', 'found at index %s, the standard function finds index %d' % ((got - base) // unit if got else None, val)))
+        for kind, t in fails:
+            kid = known.classify(rep, c, a, kind, 'O1', consts)
+            if os.environ.get('VERIF_DUMP'):
+                with open(os.environ['VERIF_DUMP'], 'a') as df: df.write('%s\t%s\t%s\t%s\t%s\n' % (kid, f, kind, {k: v for k, v in m.items() if k not in ('func', 'cls')}, t))
+            if kid: rep.known_hits[kid] = rep.known_hits.get(kid, 0) + 1
+            else: rep.violation('%s(dest=%s, dmax=%s%s): %s' % (f, m.get('d', m.get('a')), m.get('dmax'), ', src=%s' % m['s'] if 's' in m else (', ch=%s' % m['ch'] if 'ch' in m else ''), t),
+                                {'key': (f, kind), 'property': 'C10', 'function': f, 'failure': kind, 'case': c.to_json(), 'case_line': c.line(), 'impl_outcome': a.raw, 'what': t})
+        b = om.get(c.id) if f in C10_MODELLED else None
+        if b is not None and a.fault == '-' and (a.ret, a.blocks, a.handlers) != (b.ret, b.blocks, b.handlers): rep.mismatches.append((c, a, b, 'O1'))
+    report_proofs(rep, pr, 'C10')
+    report_mismatches(rep, 'T1 (query function models vs implementation)')
+    rep.trusted = TRUSTED_COMMON + ['references of the oracle: Python re-implementations of strcmp/strcasecmp/memcmp/strchr/strrchr/strpbrk/strspn/strcspn/strstr/memchr/memrchr/wcscmp/wcsnlen restricted to the first dmax elements (harness/props.py c10_reference)',
+                                    'libc calls inside the modelled functions (strchr, memchr, memrchr, toupper in the C locale) are modelled as byte scans',
+                                    'modelled in Coq: %s; the other query functions are compared with the reference only (a test, not a proof)' % ', '.join(C10_MODELLED)]
+    return rep.finish('all strings of length 0..%d over {a, b, A, 0xe9} (sampled above 2 in the quick tier) plus random strings over an alphabet with high-bit bytes, case pairs, digits and blanks; partners: equal, one difference, prefix, longer, case variant; dmax in {1, len-1, len, len+1, len+3}; slen at/below/above the set length; memory comparisons with two opposite differences inside one 8-byte word; wide strings incl. values above 2^31' % (4 if tier == 'quick' else 5),
+                      'make -C /verif/coq Properties_C10.vo + harness/check.py C10')
+REGISTRY['C10'] = check_C10
